@@ -282,6 +282,14 @@ def directed_cases(tier):
                  {"s": "write", "op": {"op": "w", "idx": 1200, "len": 50, "cid": 3}, "expect": "ok"},
                  {"s": "write", "op": {"op": "w", "idx": 1990, "len": 30, "cid": 4}, "expect": "ok"}, {"s": "close"}, {"s": "read"}]
         out.append({"cfg": cfg, "ndirs": 1, "steps": steps, "env": {"pad": 0, "cwd": None, "keep_reader": False, "repeat": 1}})
+        # a recording that begins at sample index 0 (the epoch itself), in the directory listed first / second
+        c0 = dict(cfg, start=0)
+        for dirs in ((0, 1), (1, 0)):
+            steps = [{"s": "open", "dir": dirs[0], "start": 0, "salt": 7001, "uuid": "sess94", "mode": "first"},
+                     {"s": "write", "op": {"op": "w", "idx": 0, "len": 200, "cid": 0}, "expect": "ok"}, {"s": "close"},
+                     {"s": "open", "dir": dirs[1], "start": 300, "salt": 7002, "uuid": "sess95", "mode": "later"},
+                     {"s": "write", "op": {"op": "w", "idx": 0, "len": 200, "cid": 1}, "expect": "ok"}, {"s": "close"}, {"s": "read"}]
+            out.append({"cfg": c0, "ndirs": 2, "steps": steps, "env": {"pad": 0, "cwd": None, "keep_reader": False, "repeat": 1}})
         # every kind of parameter mismatch against a channel that holds data
         steps = [{"s": "open", "dir": 0, "start": b, "salt": 6001, "uuid": "sess93", "mode": "first"},
                  {"s": "write", "op": {"op": "w", "idx": 0, "len": 250, "cid": 0}, "expect": "ok"}, {"s": "close"}]
